@@ -188,6 +188,8 @@ def run(tier, replay=None):
     run_r8(chk, fns)
     run_r9(chk, fns)
     run_r10(chk, fns)
+    run_r15(chk, F.functions)
+    run_r16(chk, F.functions)
     run_r11(chk, fns)
     run_r12(chk, fns, G, access)
     run_r13(chk, fns)
@@ -1295,6 +1297,67 @@ def run_r13(chk, fns):
 
 
 WHOLE_COMPLEX = ('complex_simplex_range()',)
+
+
+def run_r15(chk, F_all):
+    """R15 no exact dimension from a partial view: `set_dimension(d)` states that d is the exact dimension. The library
+    itself calls it only with a value computed from the whole tree (an expression mentioning the current bound:
+    `dimension()`, `upper_bound_dimension()`, `dimension_`) - never with what one input (a stream, a range) happened to
+    contain: the tree may hold larger simplices already (operator>> lowered the dimension of a non-empty tree:
+    empty stars, an out-of-bounds write in num_simplices_by_dimension)."""
+    n = 0
+    for f in F_all:
+        if f.get('body') is None or f.get('inst') not in (0, 2) or '/Simplex_tree/' not in f['file']:
+            continue
+        for x in ir.walk(f['body']):
+            if not (ir.is_call(x) and ir.call_name(x) == 'set_dimension' and ir.call_args(x)):
+                continue
+            n += 1
+            t = ir.show(ir.call_args(x)[0])
+            ok = any(w in t for w in ('dimension()', 'upper_bound_dimension()', 'dimension_'))
+            chk.ob('R15-exact-dimension', '%s: the exact dimension it sets is computed from the current one' % f['name'],
+                   '%s:%s' % (rel(f['file']), x.get('l')), ok,
+                   '' if ok else '`%s`: the value comes from one input only, a tree that already holds larger simplices '
+                   'gets a dimension below them (and the pending recomputation is switched off)' % ir.show(x)[:60],
+                   key='R15|%s|exact-dimension' % f['name'])
+    chk.count('calls of set_dimension inside the library', n)
+
+
+def run_r16(chk, F_all):
+    """R16 empty negative skeleton: "the simplices of dimension at most d" is empty for d < 0 (prune_above_dimension(d)
+    empties the complex for such d). The constructor of the skeleton iterator stands on the first vertex only under a
+    test of its dimension argument against 0."""
+    fs = [f for f in F_all if f.get('clsname') == 'Simplex_tree_skeleton_simplex_iterator' and
+          f.get('kind') in ('ctor',) and len(f.get('params', [])) == 2 and f.get('body') is not None and
+          f.get('inst') in (0, 2)]
+    if not fs:
+        raise AnalysisBroken('C01: constructor of Simplex_tree_skeleton_simplex_iterator not found')
+    f = fs[0]
+    d = f['params'][1]['n']
+    par = ir.parents(f['body'])
+    starts = [x for x in ir.walk(f['body']) if ir.write_target(x) is not None and x.get('op') == '=' and
+              ir.show(ir.write_target(x)).replace('this->', '') == 'sh_' and 'begin()' in ir.show(x)]
+    if not starts:
+        raise AnalysisBroken('C01: the skeleton iterator no longer positions sh_ on members().begin()')
+    ok = True
+    for x in starts:
+        guarded = False
+        cur = x
+        while id(cur) in par:
+            up = par[id(cur)]
+            if up.get('k') == 'IfStmt':
+                t = ir.show(up.get('cond')).replace(' ', '')
+                neg = re.search(r'%s<0|%s<=-1|0>%s' % (d, d, d), t) is not None
+                pos = re.search(r'%s>=0|%s>-1|0<=%s' % (d, d, d), t) is not None
+                in_then = cur is up.get('then') or ir.contains(up.get('then'), lambda y: y is x)
+                if (neg and not in_then) or (pos and in_then):
+                    guarded = True
+            cur = up
+        ok = ok and guarded
+    chk.ob('R16-negative-skeleton', 'the skeleton iterator starts on a vertex only for a dimension >= 0',
+           '%s:%d' % (rel(f['file']), f['line']), ok,
+           '' if ok else '`sh_ = ...begin()` is reached whatever `%s` is: skeleton_simplex_range(-1) lists the vertices' % d,
+           key='R16|Simplex_tree_skeleton_simplex_iterator|negative-skeleton')
 
 
 def run_r10(chk, fns):
